@@ -239,13 +239,13 @@ KANI_UNITS["C43"] = dict(
     grade="K-bounded(ALL valid UTF-8 documents of <= 3 bytes; every usize offset)", level="other", timeout=3600, harness_timeout=1200, jobs=4,
     native_grade="bounded(native exhaustive enumeration: 7382 documents of <= 4 characters over {a _ space newline é 1 . ( 世} x lines 0..=5 x character columns 0..=6)",
     functions=["varpulis-lsp/src/diagnostics.rs: position_to_line_col (Kani), get_error_end_column (native enumeration)",
-               "varpulis-lsp/src/navigation.rs: byte_offset_to_position (Kani), word_at_position (native enumeration)",
+               "varpulis-lsp/src/navigation.rs: byte_offset_to_position (Kani), word_at_position, span_to_location (native enumeration)",
                "varpulis-lsp/src/hover.rs: get_word_at_position (native enumeration)", "varpulis-lsp/src/completion.rs: get_completion_context (native enumeration)"],
     explanation=("PARTIAL, BOUNDED (position helpers only). (1) Kani, 2 cells: for every valid UTF-8 document of at most 3 bytes and every usize offset, position_to_line_col and "
                  "byte_offset_to_position return without panicking with line <= number of newlines and column <= document length. (2) The four helpers that go through "
                  "str::lines / char::is_alphanumeric (unicode tables: out of CBMC's reach, measured 670 s / 9.8 GB then failure for ONE of them on 3 ASCII bytes) are covered by a "
                  "BOUNDED STAND-IN: native exhaustive enumeration of 7382 documents (<= 4 characters, with 1-, 2- and 3-byte characters, LF and CR) x 6 lines x 7 columns against "
-                 "the real functions: no panic; returned words are non-empty identifier text of the document; an error range ends after its start. NOT covered: the request "
+                 "the real functions: no panic; returned words are non-empty identifier text of the document; an error range ends after its start; the range span_to_location reports for any span on character boundaries lies within the document. NOT covered: the request "
                  "handlers themselves (tower-lsp, parser), semantic tokens, documents beyond the bound."),
     assumptions=["documents of <= 3 bytes (Kani) / <= 4 characters over a 9-character alphabet (native enumeration) — bounded stand-ins for 'all documents'; nothing is proved for longer documents"],
 )
